@@ -222,9 +222,50 @@ func ruleF8c(c *Ctx) {
 		} else {
 			bObj = info.Defs[fd.Type.Params.List[1].Names[0]]
 		}
+		// the comparator's body and the plain helpers of its package it hands (a, b) to: for each,
+		// which of its own parameters stand for a and for b
+		type cmpBody struct {
+			body *ast.BlockStmt
+			a, b types.Object
+		}
+		cmpBodies := []cmpBody{{fd.Body, aObj, bObj}}
+		ast.Inspect(fd.Body, func(n ast.Node) bool {
+			call, ok := n.(*ast.CallExpr)
+			if !ok || len(call.Args) < 2 {
+				return true
+			}
+			hfn, ok := calleeOf(info, call).(*types.Func)
+			if !ok || hfn.Pkg() != p.Types {
+				return true
+			}
+			hd := funcDeclOf(p, hfn)
+			if hd == nil || hd.Body == nil || hd.Recv != nil || hd == fd || hd.Type.Params == nil {
+				return true
+			}
+			a0, ok0 := ast.Unparen(call.Args[0]).(*ast.Ident)
+			a1, ok1 := ast.Unparen(call.Args[1]).(*ast.Ident)
+			if !ok0 || !ok1 || info.Uses[a0] != aObj || info.Uses[a1] != bObj {
+				return true
+			}
+			var ps []types.Object
+			for _, fld := range hd.Type.Params.List {
+				for _, nm := range fld.Names {
+					ps = append(ps, info.Defs[nm])
+				}
+			}
+			if len(ps) >= 2 {
+				cmpBodies = append(cmpBodies, cmpBody{hd.Body, ps[0], ps[1]})
+			}
+			return true
+		})
 		// size variables
 		sizeOf := map[types.Object]types.Object{} // local var -> which param's GetOutputSize
-		ast.Inspect(fd.Body, func(n ast.Node) bool {
+		toAB := map[types.Object]types.Object{}   // a helper's own parameters -> the comparator's a / b
+		for _, cb := range cmpBodies {
+			toAB[cb.a], toAB[cb.b] = aObj, bObj
+		}
+		for _, cb := range cmpBodies {
+		ast.Inspect(cb.body, func(n ast.Node) bool {
 			as, ok := n.(*ast.AssignStmt)
 			if !ok || len(as.Lhs) != 1 || len(as.Rhs) != 1 {
 				return true
@@ -239,17 +280,19 @@ func ruleF8c(c *Ctx) {
 			}
 			if rid, ok := sel.X.(*ast.Ident); ok {
 				if lid, ok := as.Lhs[0].(*ast.Ident); ok {
-					sizeOf[info.Defs[lid]] = info.Uses[rid]
+					sizeOf[info.Defs[lid]] = toAB[info.Uses[rid]]
 				}
 			}
 			return true
 		})
+		}
 		sizeRet := false
 		var sizePos, accPos, immPos, validPos token.Pos
-		ast.Inspect(fd.Body, func(n ast.Node) bool {
+		for _, cb := range cmpBodies {
+		ast.Inspect(cb.body, func(n ast.Node) bool {
 			switch x := n.(type) {
 			case *ast.ReturnStmt:
-				if len(x.Results) != 1 {
+				if len(x.Results) < 1 || len(x.Results) > 2 {
 					return true
 				}
 				be, ok := ast.Unparen(x.Results[0]).(*ast.BinaryExpr)
@@ -285,6 +328,7 @@ func ruleF8c(c *Ctx) {
 			}
 			return true
 		})
+		}
 		if !sizeRet {
 			c.fail("F8c", fn+"|smaller size wins", c.L.Pos(fd.Pos()), "no `return sizeA < sizeB` on GetOutputSize results")
 		}
@@ -337,7 +381,8 @@ func ruleF8c(c *Ctx) {
 		// (chasing single-assignment locals): the fits-in-imm8 predicate, encoding sizes, the
 		// ModRM field (accumulator form), the immediate's size (imm8 form)
 		defs := map[types.Object]ast.Expr{}
-		ast.Inspect(fd.Body, func(n ast.Node) bool {
+		for _, cb := range cmpBodies {
+		ast.Inspect(cb.body, func(n ast.Node) bool {
 			if as, ok := n.(*ast.AssignStmt); ok && as.Tok == token.DEFINE && len(as.Lhs) == len(as.Rhs) {
 				for i, l := range as.Lhs {
 					if id, ok := l.(*ast.Ident); ok && info.Defs[id] != nil {
@@ -355,6 +400,7 @@ func ruleF8c(c *Ctx) {
 			}
 			return true
 		})
+		}
 		calleeDepth := 0
 		var tagsOf func(e ast.Expr, seen map[types.Object]bool, out map[string]bool)
 		tagsOf = func(e ast.Expr, seen map[types.Object]bool, out map[string]bool) {
@@ -396,13 +442,58 @@ func ruleF8c(c *Ctx) {
 			})
 		}
 		type critIf struct {
-			pos  token.Pos
+			pos  token.Pos // a sequence number: the order in which the tests are made
 			tags map[string]bool
 		}
 		var ifs []critIf
+		seq := token.Pos(0)
+		next := func() token.Pos { seq++; return seq }
+		inlineDepth := 0
+		// helperOf: the plain helper of this package that the condition of an if is the result of
+		// (`if less, decided := helper(a, b); decided { return less }`)
+		helperOf := func(is *ast.IfStmt) *ast.FuncDecl {
+			var hd *ast.FuncDecl
+			visit := func(e ast.Node) {
+				ast.Inspect(e, func(n ast.Node) bool {
+					call, ok := n.(*ast.CallExpr)
+					if !ok {
+						return true
+					}
+					if hfn, ok := calleeOf(info, call).(*types.Func); ok && hfn.Pkg() == p.Types {
+						if d := funcDeclOf(p, hfn); d != nil && d.Body != nil && d.Recv == nil && d != fd {
+							hd = d
+						}
+					}
+					return true
+				})
+			}
+			if is.Init != nil {
+				visit(is.Init)
+			}
+			visit(is.Cond)
+			return hd
+		}
 		var collect func(list []ast.Stmt, outer map[string]bool)
 		collect = func(list []ast.Stmt, outer map[string]bool) {
 			for _, st := range list {
+				// a test delegated to a helper that makes several tests itself: they count in its order
+				if is, ok := st.(*ast.IfStmt); ok && inlineDepth < 2 {
+					if hd := helperOf(is); hd != nil {
+						nIfs := 0
+						ast.Inspect(hd.Body, func(n ast.Node) bool {
+							if _, ok := n.(*ast.IfStmt); ok {
+								nIfs++
+							}
+							return true
+						})
+						if nIfs >= 1 {
+							inlineDepth++
+							collect(hd.Body.List, outer)
+							inlineDepth--
+							continue
+						}
+					}
+				}
 				// a tagless switch whose clauses return is a test on all of its case conditions
 				if sw, ok := st.(*ast.SwitchStmt); ok && sw.Tag == nil {
 					tags := map[string]bool{}
@@ -425,7 +516,7 @@ func ruleF8c(c *Ctx) {
 						}
 					}
 					if returns {
-						ifs = append(ifs, critIf{sw.Pos(), tags})
+						ifs = append(ifs, critIf{next(), tags})
 					}
 					continue
 				}
@@ -445,7 +536,7 @@ func ruleF8c(c *Ctx) {
 					}
 				}
 				if returns {
-					ifs = append(ifs, critIf{is.Pos(), tags})
+					ifs = append(ifs, critIf{next(), tags})
 				}
 				collect(is.Body.List, tags)
 			}
